@@ -72,7 +72,7 @@ def coq_strings(path, name):
 REGISTRY_VARS = {"mp4.decoders", "mp4.decodersSR"}
 REGISTRY_MUTATORS = {"SetBoxDecoder", "RemoveBoxDecoder"}
 # mirrors kind_globals_r / global_idx of coq/c20/C20ReachProofs.v (only used to NAME the offender; the theorem decides)
-KIND_GLOBALS = {"KDecode": {0, 1, 2, 3}, "KDecodeSR": {1, 2, 3}, "KToByteStream": set(), "KToNaluSample": set(),
+KIND_GLOBALS = {"KDecode": {0, 1, 2, 3}, "KDecodeLazy": {0, 1, 2, 3}, "KDecodeSR": {1, 2, 3}, "KToByteStream": set(), "KToNaluSample": set(),
                 "KSetBoxDecoder": {0, 1}, "KRemoveBoxDecoder": {0, 1}}
 GLOBAL_IDX = {"mp4.decoders": 0, "mp4.decodersSR": 1, "mp4.sgeDecoders": 2}
 
@@ -240,13 +240,23 @@ def run(ctx):
     mism = [l for l in res if not l.startswith("OK ")]
     effective = sum(1 for l in res if l.startswith("OK ") and not l.endswith("eff=0"))
     over = sum(1 for l in res if l.startswith("OK ") and " over=0 " not in l)
+    import re
+    hyp = sum(1 for l in res if l.startswith("OK ") and " hyp=1 " in l)
+    lazy_reads = sum(int(m.group(1)) for m in (re.search(r" lazy=(\d+) ", l) for l in res if l.startswith("OK ")) if m)
+    lazy_progs = sum(1 for l in lines if "\tL:" in l or ";L:" in l)
     distinct = len(set(l.split("\t", 3)[3] for l in lines if l.count("\t") >= 3))
     nops = sum(l.split("\t")[3].count(";") + 1 for l in lines if l.count("\t") >= 3)
     ctx.cov["evaluations"] += nops
     ctx.cov["distinct_nontrivial"] += distinct
     ctx.notes["correspondence"] = {"programs": len(lines), "ops": nops, "mismatches": len(mism), "distinct_programs": distinct,
                                    "programs_in_which_a_shared_input_was_observed_to_change": effective,
+                                   "programs_with_a_lazy_mdat_decode": lazy_progs,
                                    "programs_where_the_table_over_approximates_aliasing_of_a_payload_free_input": over}
+    ctx.cov["theorem_hypotheses_evaluated"] = {
+        "C20_api_footprints / C20_api_schedule_independence (reader_only p || prog_safe t [] p, evaluated by the extracted model on "
+        "every generated sequential program; on those the observed set of changed inputs must be empty)": "%d/%d" % (hyp, len(lines)),
+        "C20_lazy_path_private (ReadData ops that ran ok on a lazily decoded object; observed aliasing must be 'own')": lazy_reads,
+    }
     ctx.cov["samples"] += [l[:300] for l in lines[5:8]]
     ctx.log("correspondence: %d sequential programs (%d ops), %d mismatches, %d programs mutate a shared input"
             % (len(lines), nops, len(mism), effective))
